@@ -7,7 +7,9 @@ UNITS = {
     ],
     "C02": [
         {"name": "C02_FN", "test": "TestC02_FN", "quick": 20000, "thorough": 400000, "shards": 8},
-        {"name": "C02_INP", "test": "TestC02_INP", "quick": 1500, "thorough": 20000, "shards": 8},
+        {"name": "C02_INP", "test": "TestC02_INP", "quick": 1500, "thorough": 20000, "shards": 6},
+        {"name": "C02_BIN", "test": "TestC02_BIN", "quick": 200, "thorough": 3000, "shards": 2, "bin": True},
+        {"name": "C02_FUZZ", "test": "FuzzPAACookie", "quick": 0, "thorough": 0, "shards": 1, "fuzz": True, "fuzztime_thorough": "120s", "exclusive": True},
     ],
     "C03": [
         {"name": "C03_INP", "test": "TestC03_INP", "quick": 5000, "thorough": 100000, "shards": 12},
@@ -40,6 +42,8 @@ UNITS = {
         {"name": "C10_HTTP", "test": "TestC10_HTTP", "quick": 90, "thorough": 4000, "shards": 3, "bin": True},
         {"name": "C10_NTLM", "test": "TestC10_NTLM", "quick": 20000, "thorough": 400000, "shards": 1},
         {"name": "C10_KDC", "test": "TestC10_KDC", "quick": 3000, "thorough": 60000, "shards": 1},
+        {"name": "C10_FUZZ_TUNNEL", "test": "FuzzTunnelBytes", "quick": 0, "thorough": 0, "shards": 1, "fuzz": True, "fuzztime_thorough": "120s", "exclusive": True},
+        {"name": "C10_FUZZ_NTLM", "test": "FuzzNTLMMessage", "quick": 0, "thorough": 0, "shards": 1, "fuzz": True, "fuzztime_thorough": "90s", "exclusive": True},
     ],
     "C17": [
         {"name": "C17_INP", "test": "TestC17_INP", "quick": 8000, "thorough": 20000, "shards": 12},
@@ -47,7 +51,8 @@ UNITS = {
         {"name": "C17_EXH", "test": "TestC17_EXH", "quick": 0, "thorough": 262144, "shards": 16, "exclusive": True, "exhaustive_thorough": True},
     ],
     "C11": [
-        {"name": "C11_INP", "test": "TestC11_INP", "quick": 500, "thorough": 6000, "shards": 16, "shrink": "60s"},
+        {"name": "C11_INP", "test": "TestC11_INP", "quick": 500, "thorough": 6000, "shards": 12, "shrink": "60s"},
+        {"name": "C11_BIN", "test": "TestC11_BIN", "quick": 120, "thorough": 1500, "shards": 4, "bin": True, "shrink": "60s"},
     ],
     "C12": [
         {"name": "C12_BIN", "test": "TestC12_BIN", "quick": 400, "thorough": 8000, "shards": 8, "bin": True},
@@ -59,9 +64,11 @@ UNITS = {
     ],
     "C14": [
         {"name": "C14_FN", "test": "TestC14_FN", "quick": 40000, "thorough": 800000, "shards": 8},
+        {"name": "C14_FUZZ", "test": "FuzzNTLMMessage", "quick": 0, "thorough": 0, "shards": 1, "fuzz": True, "fuzztime_thorough": "120s", "exclusive": True},
     ],
     "C15": [
         {"name": "C15_FN", "test": "TestC15_FN", "quick": 10000, "thorough": 200000, "shards": 8},
+        {"name": "C15_FUZZ", "test": "FuzzUserToken", "quick": 0, "thorough": 0, "shards": 1, "fuzz": True, "fuzztime_thorough": "120s", "exclusive": True},
     ],
     "C16": [
         {"name": "C16_INP", "test": "TestC16_INP", "quick": 4000, "thorough": 40000, "shards": 12},
